@@ -50,6 +50,8 @@ def _child(conn, setup, work, setup_arg, units, unit_timeout, mem_bytes):
             pass
     finally:
         try:
+            from . import cov
+            cov.dump()
             repo.leave_scratch()
         finally:
             conn.close()
